@@ -10,6 +10,7 @@ len(tokens) exactly once per loop test, so iterations = calls - 1 (ParseSections
 `create(current, tokens, sections, len(tokens))`)."""
 import json
 import logging
+import signal
 import sys
 import warnings
 
@@ -288,8 +289,18 @@ def run_case(c, r):
     return r
 
 
+WALL_LIMIT = 5.0        # seconds per case; the nested TableCellParser / TableRowParser runs work on plain lists
+MAX_WALL_HITS = 3       # (no loop-test budget), so a loop that stops advancing there is cut off by the clock
+
+
+def _alarm(signum, frame):
+    raise LoopBudgetExceeded("wall clock: more than %.0f s for one token list" % WALL_LIMIT)
+
+
 def main():
     out = sys.stdout
+    signal.signal(signal.SIGALRM, _alarm)
+    wall_hits = 0
     for line in sys.stdin:
         line = line.strip()
         if not line:
@@ -297,8 +308,16 @@ def main():
         c = json.loads(line)
         r = {"id": c["id"]}
         try:
-            run_case(c, r)
+            if wall_hits >= MAX_WALL_HITS:
+                raise LoopBudgetExceeded("skipped: %d earlier token lists of this batch hit the wall clock limit" % wall_hits)
+            signal.setitimer(signal.ITIMER_REAL, WALL_LIMIT)
+            try:
+                run_case(c, r)
+            finally:
+                signal.setitimer(signal.ITIMER_REAL, 0)
         except Exception as e:  # noqa: BLE001
+            if isinstance(e, LoopBudgetExceeded) and str(e).startswith("wall clock"):
+                wall_hits += 1
             r["exc"] = "%s: %s" % (type(e).__name__, e)
             r.pop("out", None)
             r.pop("iters", None)
